@@ -16,7 +16,6 @@ import (
 	"strings"
 
 	"verif/harness/internal/core"
-
 )
 
 func Main() {
